@@ -15,5 +15,7 @@ def run(ctx):
     planlevel.plan_campaign(ctx, {"C04"})
     import prune_corr
     import queues_corr
+    import translate_prune
+    translate_prune.check(ctx)       # pruning.py's literal elision translated to Gallina and linked to Cache/Prune.v by a theorem
     prune_corr.run_prune(ctx)       # real prune_plan / prune_source_literals vs Cache/Prune.v (exact node order + keyed edges)
     queues_corr.run_queues(ctx)     # real RandomQueue / PriorityQueue / deque op sequences vs Engine/Queues.v
